@@ -9,7 +9,7 @@ import ast
 from ..alg import Poly, Q, MQ, is_zero
 from ..elems import ElemLib
 from ..repo import AnalysisError, dotted, norm_text, FuncInfo
-from ..xeval import Interp, XObj, Opaque, _NpAttr, XRaise, Uninterpretable, exact
+from ..xeval import Interp, XObj, Opaque, _NpAttr, XRaise, Uninterpretable, exact, Sink
 from ..xarray import XArray
 
 GE = "EasyFEA.FEM._group_elem._GroupElem"
@@ -398,6 +398,7 @@ def run(ctx):
     ctx.attempt(preselection_rule, ctx)
     ctx.attempt(projector_rule, ctx, lib)
     ctx.attempt(reflection_orientation_rule, ctx, lib)
+    ctx.attempt(evaluation_order_rule, ctx, lib)
 
 
 def candidate_order_rule(ctx):
@@ -1008,3 +1009,76 @@ def reflection_orientation_rule(ctx, lib, rid="R8.18"):
             r.fail(f.qualname, f"reflection-flips-normal:{name}", f.file, f.lineno, "Get_normals_e_pg", f"{name} boundary element: after Mesh.Symmetry the computed normal is MINUS the image of the normal (cross(H a, H b) = -H (a x b), the connectivity keeps its order): normals that were outward point into the mirrored domain; a pressure applied after the reflection acts in the opposite sense")
         else:
             r.fail(f.qualname, f"reflection-normal:{name}", f.file, f.lineno, "Get_normals_e_pg", f"{name}: the normal after the reflection is neither H n nor -H n")
+
+
+def evaluation_order_rule(ctx, lib):
+    """R8.19: 'locating arbitrary points, singly or in batches, and evaluating a nodal field there reproduces any
+    polynomial of the element's order' -- whatever the ORDER in which the caller lists the candidate elements.
+    Mesh.Evaluate_dofsValues_at_coordinates, Get_Mapping and _Get_Mapping are interpreted end to end on two TRI3 sharing
+    the diagonal of the unit square (real shape functions, Jacobians and inverse map; the two geometric predicates
+    _Get_coord_Near / Get_pointsInElem, decided by R8.1, R8.2, R8.16, are replaced by exact oracles) with a symbolic linear
+    nodal field a + b x + c y, for query points on the shared diagonal, at a shared vertex and inside one element, with the
+    candidate elements given ascending, descending and with a repetition: the evaluated field must be a + b x + c y."""
+    from types import SimpleNamespace
+
+    from ..gausslib import GaussLib
+    from ..femchain import fe_hook_full
+
+    repo = ctx.repo
+    mesh_ci = repo.cls("EasyFEA.FEM._mesh.Mesh")
+    fE = mesh_ci.methods["Evaluate_dofsValues_at_coordinates"]
+    r = ctx.rule("R8.19", "Evaluate_dofsValues_at_coordinates reproduces a symbolic linear field at points on a shared edge, at a shared vertex and inside an element, for candidate elements listed in any order (ascending, descending, repeated)", min_instances=3)
+    ge = repo.cls(GE)
+    coords = [[Q(0), Q(0), Q(0)], [Q(1), Q(0), Q(0)], [Q(1), Q(1), Q(0)], [Q(0), Q(1), Q(0)]]
+    rows = [[0, 1, 2], [0, 2, 3]]
+    connect = XArray((2, 3), [n for row in rows for n in row], "i")
+    kind = GaussLib(repo).factory("TRI3", "mass")
+    gc, gw = XArray.from_nested(kind[3]), XArray.from_nested(kind[4])
+
+    def pts_in_elem(cn, e):
+        cn = XArray.from_nested(cn)
+        tri = [coords[n] for n in rows[int(e)]]
+        cr = lambda a, b, c: (b[0] - a[0]) * (c[1] - a[1]) - (b[1] - a[1]) * (c[0] - a[0])
+        out = [i for i in range(cn.shape[0]) if all(cr(tri[k], tri[(k + 1) % 3], (cn[i, 0], cn[i, 1])) >= 0 for k in range(3))]
+        return XArray((len(out),), out, "i")
+
+    def hook(fn, args, kwargs):
+        fi = fn if isinstance(fn, FuncInfo) else getattr(fn, "finfo", None)
+        if isinstance(fi, FuncInfo) and fi.module.name.startswith("EasyFEA.Utilities") and fi.name in ("Tic", "Tac", "_CheckIsVector"):
+            return Sink()
+        return fe_hook_full(fn, args, kwargs)
+
+    a_, b_, c_ = Poly.var("a"), Poly.var("b"), Poly.var("c")
+    u = XArray((4,), [a_ + b_ * c[0] + c_ * c[1] for c in coords])
+    pts = [(Q(1, 2), Q(1, 2)), (Q(0), Q(0)), (Q(3, 4), Q(1, 4)), (Q(1, 3), Q(1, 3)), (Q(1, 4), Q(1, 2))]
+    q = XArray((len(pts), 3), [v for p in pts for v in (p[0], p[1], Q(0))])
+    for label, el in (("ascending", [0, 1]), ("descending", [1, 0]), ("repeated", [1, 0, 1])):
+        r.instance(fn=fE.qualname)
+        obj = lib.make_obj("TRI3")
+        at = obj.attrs
+        at.update(Ne=2, Nn=4, Ncoords=4, connect=connect, coord=XArray.from_nested(coords), inDim=2, _global_to_local_nodes=XArray((4,), [0, 1, 2, 3], "i"), nodes=XArray((4,), [0, 1, 2, 3], "i"))
+        at[ge.mangle("__connect")] = connect
+        at[ge.mangle("__coord")] = at["coord"]
+        at[ge.mangle("__dim")] = 2
+        at["Get_gauss"] = lambda mt=None: SimpleNamespace(coord=gc, weights=gw, nPg=gc.shape[0])
+        at["Get_pointsInElem"] = pts_in_elem
+        at["_Get_coord_Near"] = lambda cn, ce, dims=None: XArray((XArray.from_nested(cn).shape[0],), list(range(XArray.from_nested(cn).shape[0])), "i")
+        I = Interp(repo)
+        I.call_hook = hook
+        m = XObj(mesh_ci, {"dim": 2, "Nn": 4, "Get_list_groupElem": (lambda d=None, _o=obj: [_o]), "groupElem": obj})
+        try:
+            out = XArray.from_nested(I.call_function(fE, [q, u, XArray((len(el),), el, "i")], self_obj=m))
+        except XRaise as e:
+            r.fail(fE.qualname, f"order:{label}", fE.file, fE.lineno, "Mesh.Evaluate_dofsValues_at_coordinates", f"candidate elements {el}: raises {e}")
+            continue
+        bad = None
+        for k, (x, y) in enumerate(pts):
+            want = a_ + b_ * x + c_ * y
+            got = out[k, 0] if out.ndim == 2 else out[k]
+            if not is_zero(Poly.of(got) - want):
+                bad = f"point ({x}, {y}): evaluated {got!r}, the field is {want!r}"
+                break
+        if bad:
+            r.fail(fE.qualname, f"order:{label}", fE.file, fE.lineno, "Mesh.Evaluate_dofsValues_at_coordinates", f"unit square, triangles (0,1,2) and (0,2,3), linear nodal field a + b x + c y, candidate elements {el} ({label}): {bad}: a point shared by two elements takes its reference coordinates in one of them and its nodal values in the other")
+        else:
+            r.ok(f"candidate elements {label}: linear field reproduced at {len(pts)} points")
